@@ -10,6 +10,7 @@ import (
 	"context"
 	"fmt"
 	"strings"
+	"time"
 
 	"github.com/smart-core-os/sc-api/go/traits"
 	"google.golang.org/grpc"
@@ -137,4 +138,101 @@ func groupCases() []groupCase {
 
 func groupName(trait, op string, c groupCase) string {
 	return fmt.Sprintf("%s.Group/%s/%s[%s]", trait, op, stratNames[c.st], strings.Join(c.members, ","))
+}
+
+// Group.Pull*: every member holds a subscription (a scripted stream: some values at once, then silence until its
+// context ends; "fail" cannot even open one) and hands what it receives to the group loop, which sends the reduced
+// value on. The subscriber's Send fails at the failAt-th message (and it leaves once all is quiet if that
+// message never comes), or (failAt=0) its context is cancelled by another thread at any moment. The call must return, and nothing it started may be left - a member still holding a value
+// it cannot hand over any more is one.
+type scriptedPull[T any] struct {
+	grpc.ClientStream
+	ctx  context.Context
+	vals []*T
+}
+
+func (p *scriptedPull[T]) Recv() (*T, error) {
+	if len(p.vals) > 0 {
+		v := p.vals[0]
+		p.vals = p.vals[1:]
+		return v, nil
+	}
+	<-p.ctx.Done()
+	return nil, p.ctx.Err()
+}
+
+type failingSubscriber[T any] struct {
+	grpc.ServerStream
+	ctx    context.Context
+	failAt int
+	sent   int
+}
+
+func (f *failingSubscriber[T]) Context() context.Context { return f.ctx }
+func (f *failingSubscriber[T]) Send(*T) error {
+	f.sent++
+	if f.sent == f.failAt {
+		return status.Error(codes.Unavailable, "subscriber went away")
+	}
+	return f.ctx.Err()
+}
+
+func (f *fakeMembers) PullBrightness(ctx context.Context, r *traits.PullBrightnessRequest, _ ...grpc.CallOption) (grpc.ServerStreamingClient[traits.PullBrightnessResponse], error) {
+	if strings.HasPrefix(r.Name, "fail") {
+		return nil, status.Error(codes.Unavailable, r.Name)
+	}
+	p := &scriptedPull[traits.PullBrightnessResponse]{ctx: ctx}
+	base := float32(10)
+	if strings.HasSuffix(r.Name, "1") {
+		base = 20
+	}
+	for i := 0; i < strings.Count(r.Name, "v"); i++ {
+		p.vals = append(p.vals, &traits.PullBrightnessResponse{Changes: []*traits.PullBrightnessResponse_Change{{Brightness: &traits.Brightness{LevelPercent: base + float32(20*i)}}}})
+	}
+	return p, nil
+}
+
+func (f *fakeMembers) PullOnOff(ctx context.Context, r *traits.PullOnOffRequest, _ ...grpc.CallOption) (grpc.ServerStreamingClient[traits.PullOnOffResponse], error) {
+	if strings.HasPrefix(r.Name, "fail") {
+		return nil, status.Error(codes.Unavailable, r.Name)
+	}
+	p := &scriptedPull[traits.PullOnOffResponse]{ctx: ctx}
+	st := traits.OnOff_ON
+	if strings.HasSuffix(r.Name, "1") {
+		st = traits.OnOff_OFF
+	}
+	for i := 0; i < strings.Count(r.Name, "v"); i++ {
+		p.vals = append(p.vals, &traits.PullOnOffResponse{Changes: []*traits.PullOnOffResponse_Change{{OnOff: &traits.OnOff{State: st}}}})
+		st = traits.OnOff_ON + traits.OnOff_OFF - st
+	}
+	return p, nil
+}
+
+func groupPullBody(name, trait string, st group.ExecutionStrategy, members []string, failAt int) func() {
+	return func() {
+		f := &fakeMembers{}
+		// a subscriber that never saw the failing Send (the reduced value did not change often enough) leaves
+		// once everything is quiet: virtual time only advances then
+		ctx, cancel := context.WithTimeout(context.Background(), time.Hour)
+		defer cancel()
+		if failAt == 0 {
+			go cancel()
+		}
+		var err error
+		switch trait {
+		case "light":
+			g := lightpb.NewGroup(f, members...)
+			g.ReadExecution = st
+			err = g.PullBrightness(&traits.PullBrightnessRequest{Name: "group"}, &failingSubscriber[traits.PullBrightnessResponse]{ctx: ctx, failAt: failAt})
+		case "onoff":
+			g := onoffpb.NewGroup(f, members...)
+			g.ReadExecution = st
+			err = g.PullOnOff(&traits.PullOnOffRequest{Name: "group"}, &failingSubscriber[traits.PullOnOffResponse]{ctx: ctx, failAt: failAt})
+		}
+		verifrt.WaitIdle()
+		if a := verifrt.Alive(); len(a) > 0 {
+			verifrt.Logf("FAIL goroutine-left %s ## after the call returned (%v): %v", name, err, a)
+		}
+		verifrt.Logf("OUT err=%v", err != nil)
+	}
 }
